@@ -11,6 +11,32 @@ def _b(s):
     return s.encode("utf-8")
 
 
+def _nstr(v):
+    """a name / base in a case: str | ("path", str) = a pathlib.PurePosixPath of it | None | int (not path-like).
+    -> the string os.fspath() gives the code, or None when the value is not path-like"""
+    if isinstance(v, str):
+        return v
+    if isinstance(v, tuple) and v[:1] == ("path",):
+        import pathlib
+        return os.fspath(pathlib.PurePosixPath(v[1]))
+    return None
+
+
+def _nobj(v):
+    if isinstance(v, tuple) and v[:1] == ("path",):
+        import pathlib
+        return pathlib.PurePosixPath(v[1])
+    return v
+
+
+def _extras(case):
+    """perm / mode arguments for the constructor and the reopens: they do not change which entries exist, so they are
+    not part of the request; derived from the case so that a replay passes the same ones"""
+    import zlib
+    h = zlib.crc32(repr(case[:9]).encode())
+    return [None, 0o700, 0o1755, 0o1700][h % 4], [None, "r+", "w+", "rb+", "a+"][(h // 4) % 5]
+
+
 class C29(core.Check):
     pid = "C29"
     pkg = "Path"
@@ -25,14 +51,14 @@ class C29(core.Check):
                   "clear_within_path (_clearPath adds nothing and removes only at/below .path, resp. the directory holding it when temp), history_inside_head / fresh_filer_history_inside_head "
                   "(induction over any sequence of reopen(temp,fext,clear,reuse,clean)/close(clear) calls, including calls that switch the Filer between persistent and temporary: the filesystem differs from the "
                   "initial one only inside the head / the Filer's mkdtemp directories), reopen_to_temp_keeps_siblings (a persistent Filer reopened as temporary clears its old path under the OLD setting: nothing "
-                  "outside the old path and the new mkdtemp directory changes). reuse_with_temp_flip_clears_holding_dir is the witness for known finding C29-K2 (reuse keeps the path, the setting flips). "
+                  "outside the old path and the new mkdtemp directory changes). context_exit_clears_path (leaving an openFiler context of a temp / clear=True Filer leaves nothing at .path whether or not the block closed it already; exit and FilerDoer steps are part of the histories). reuse_with_temp_flip_clears_holding_dir is the witness for known finding C29-K2 (reuse keeps the path, the setting flips). "
                   "'temp resources are removed' is FALSE for the mkdtemp directory itself and the directories between it and .path: witness temp_clear_leaves_tempdir, known finding C29-K1. "
                   "The filesystem and os.path functions are modelled; the correspondence compares full sandbox snapshots with the real Filer after every step.")
     level_note = ("Trusted: Lean kernel + propext/Classical.choice/Quot.sound; POSIX os.path.join/abspath/splitext/split, os.makedirs, shutil.rmtree, os.remove, "
                   "tempfile.mkdtemp as modelled (exercised by the correspondence on the real filesystem); no symlinks, no permission failures, no alt-path fallback.")
     quick_n = 700
     thorough_n = 6000
-    rule = ("case = (name, base, temp, clean, filed, extensioned, fext, pre-existing dirs/sentinel files incl. other Filers' files in the holding directory, steps reopen(clear,reuse,clean,temp,fext)* close(clear)) where a third of the reopens change temp and/or fext; names/bases of 1-3 segments over "
+    rule = ("case = (name, base, temp, clean, filed, extensioned, fext, pre-existing dirs/sentinel files incl. other Filers' files in the holding directory, steps reopen(clear,reuse,clean,temp,fext)* close(clear)) where a third of the reopens change temp and/or fext, ('doer',) steps run a FilerDoer under a Doist, and a third of the cases run inside `with openFiler(...)` (blocks that leave the filer closed included); HOME points into the sandbox and names/bases contain '~', '~/x', '$HOME'; names/bases of 1-3 segments over "
             "plain, dotted ('..', '.', '', '.h', 'a.', '...', '..b', 'x.y') and unicode segments, occasionally absolute; all 16 flag combinations; thorough adds every name of <= 3 segments over "
             "{'..','.','','a','.h','a.b'} x 5 bases x 16 flag combinations. non-trivial = Filer constructed and at least one entry created or deleted; distinct by request line")
     trusted_base = ["translator harness/extract/path.py (Filer.TailDirPath / CleanTailDirPath -> Gen/FilerConsts.lean; the containment proofs re-check that both are non-empty lists of ordinary segments)",
@@ -90,6 +116,16 @@ class C29(core.Check):
         for nm, bs in (("~", ""), ("~/x", ""), ("x", "~"), ("x", "~/b"), ("~nosuchuser9", ""), ("a/~", "b"), ("~", "~")):
             for temp, filed in ((False, False), (False, True), (True, False)):
                 cs.append((nm, bs, temp, False, filed, False, "text", [], C))          # '~' is an ordinary segment below head
+        for temp, filed in ((False, False), (True, True)):
+            for nm, bs in ((None, ""), ("x", None), (7, ""), ("x", 0), (("path", "a/b"), ""), ("x", ("path", "b/./c/")), (("path", "a/../../../x"), ""), (("path", "."), ("path", ""))):
+                cs.append((nm, bs, temp, False, filed, False, "text", [], C))
+            for fx in ("", "a/b", "/../../../x", "..", ".", "t.x", "é"):
+                cs.append(("main", "b", temp, False, filed, not filed, fx, [], [("reopen", False, False, False, None, "db"), ("exists",), ("close", True)]))
+        near = [("hio", "d"), ("hio/b", "d"), ("hio/b/main.textx", "f"), ("hio/b/main.text.bak", "f"), ("hio/b/mainx", "d"), ("hio/b/mainx/data", "f"), ("hio/b/main0", "d"), ("hio/b/mai", "f")]
+        for filed, ext in ((False, False), (True, False), (False, True)):
+            # neighbours whose names are in prefix relation with the path: none of them is the Filer's
+            cs.append(("main", "b", False, False, filed, ext, "text", near, [("reopen", True, False, False, None, None), ("exists",), ("close", True)]))
+            cs.append(("main", "b", False, False, filed, ext, "text", near + ([("hio/b/main.text", "f")] if ext else []), [("reopen", True, False, False, True, None), ("close", True)]))
         sib = [("hio", "d"), ("hio/clean", "d"), ("hio/clean/b", "d"), ("hio/clean/b/keep", "f"), ("hio/clean/b/sib", "d"), ("hio/clean/b/sib/keep", "f")]
         for filed, ext in ((False, False), (True, False), (False, True), (True, True)):
             # the clean path is visited twice: what is there is removed, nothing next to it
@@ -135,7 +171,7 @@ class C29(core.Check):
 
     def request(self, case):
         name, base, temp, clean, filed, ext, fext, pre, steps = case[:9]
-        return ("filer", _b(name), _b(base), bool(temp), bool(clean), bool(filed), bool(ext), _b(fext),
+        return ("filer", None if _nstr(name) is None else _b(_nstr(name)), None if _nstr(base) is None else _b(_nstr(base)), bool(temp), bool(clean), bool(filed), bool(ext), _b(fext),
                 P.HEADSEGS, P.TEMPSEGS, self._initial(case),
                 tuple(self._wire_step(s) for s in steps),
                 "ctor" if self._entry(case) is None else ("ctx", bool(self._entry(case)[1])))
@@ -156,8 +192,8 @@ class C29(core.Check):
         st = cls._norm(step)
         if st[0] == "reopen":
             return ("reopen", bool(st[1]), bool(st[2]), bool(st[3]), None if st[4] is None else bool(st[4]), None if st[5] is None else _b(st[5]))
-        if st[0] == "doer":
-            return ("doer",)
+        if st[0] in ("doer", "exists"):
+            return (st[0],)
         return ("close", bool(st[1]))
 
     # ---------------------------------------------------------------- implementation
@@ -177,10 +213,10 @@ class C29(core.Check):
                 try:
                     fn()
                     res = ("ok", tuple(_b(x) for x in sb.rel(filer.path))) if filer is not None and filer.path else ("ok", None)
-                except hioing.FilerError:
-                    res = ("raise", "FilerError")
                 except OSError:
                     res = ("raise", "OSError")
+                except Exception as ex:          # every exception out of the real code is an observation, never a crash
+                    res = ("raise", type(ex).__name__)
                 # the snapshot first: it names new temp directories
                 snap = sb.snapshot()
                 if res[0] == "ok" and res[1] is not None:
@@ -190,13 +226,17 @@ class C29(core.Check):
 
             def make():
                 nonlocal filer
-                filer = cls(name=name, base=base, temp=temp, headDirPath=sb.head, clean=clean, filed=filed, extensioned=ext, fext=fext, reopen=True)
+                filer = cls(name=_nobj(name), base=_nobj(base), temp=temp, headDirPath=sb.head, clean=clean, filed=filed, extensioned=ext, fext=fext,
+                             reopen=True, perm=perm, mode=mode)
 
             def run_steps():
                 for s in steps:
                     s = self._norm(s)
                     if s[0] == "reopen":
-                        ok = stage(lambda: filer.reopen(clear=s[1], reuse=s[2], clean=s[3], temp=s[4], fext=s[5]))
+                        ok = stage(lambda: filer.reopen(clear=s[1], reuse=s[2], clean=s[3], temp=s[4], fext=s[5], perm=perm, mode=mode))
+                    elif s[0] == "exists":
+                        ok = stage(lambda: filer.exists(name=filer.name, base=filer.base, headDirPath=sb.head, clean=clean, filed=filer.filed,
+                                                        extensioned=filer.extensioned, fext=filer.fext))
                     elif s[0] == "doer":
                         def run_doer():
                             doist = doing.Doist(limit=0.0625, tock=0.03125, real=False)
@@ -208,6 +248,7 @@ class C29(core.Check):
                         break
 
             entry = self._entry(case)
+            perm, mode = _extras(case)
             old_home = os.environ.get("HOME")
             os.environ["HOME"] = sb.home
             try:
@@ -219,8 +260,8 @@ class C29(core.Check):
 
                     def enter():
                         nonlocal filer
-                        cm = filing.openFiler(cls=cls, name=name, base=base, temp=temp, headDirPath=sb.head, clean=clean, filed=filed,
-                                              extensioned=ext, fext=fext, reopen=True, clear=entry[1])
+                        cm = filing.openFiler(cls=cls, name=_nobj(name), base=_nobj(base), temp=temp, headDirPath=sb.head, clean=clean, filed=filed,
+                                              extensioned=ext, fext=fext, reopen=True, clear=entry[1], perm=perm, mode=mode)
                         filer = cm.__enter__()
                         opened.append(cm)
                     if stage(enter):
@@ -289,6 +330,12 @@ class C29(core.Check):
             if any(e in init for e in deleted if not any(e[0][:len(q)] == q for q in own)):
                 # something that was there before the Filer existed, and is not below its own (old or new) path, is gone
                 out.append((i, "removed-foreign-entry", old_temp, path))
+            if step is not None and step[0] == "exists" and (created or deleted):
+                out.append((i, "query-changed-filesystem", old_temp, path))
+            if res[0] == "raise" and res[1] not in ("FilerError", "OSError", "TypeError"):
+                out.append((i, "unexpected-exception-" + res[1], old_temp, path))
+            if i == 0 and res[0] == "raise" and (created or deleted):
+                out.append((i, "rejected-constructor-touched-filesystem", old_temp, path))
             if step is not None and step[0] == "close" and res[0] == "ok":
                 if step[1]:
                     if path is not None and any(p == path for p, _ in cur):
@@ -358,6 +405,11 @@ class C29(core.Check):
     def features(self, case, obs):
         name, base, temp, clean, filed, ext, fext, pre, steps = case[:9]
         f = [f"flags:t{int(temp)}c{int(clean)}f{int(filed)}e{int(ext)}", f"init:{obs[1][0][0] if len(obs) > 1 else 'none'}" + (":" + obs[1][0][1] if len(obs) > 1 and obs[1][0][0] == "raise" else "")]
+        name, base = _nstr(name) or "", _nstr(base) or ""
+        if _nstr(case[0]) is None or _nstr(case[1]) is None:
+            f.append("arg-not-pathlike")
+        if isinstance(case[0], tuple) or isinstance(case[1], tuple):
+            f.append("arg-pathlib")
         segs = name.split("/") + (base.split("/") if base else [])
         if ".." in segs:
             f.append("has-dotdot")
@@ -390,6 +442,10 @@ class C29(core.Check):
             yield (name, base, temp, clean, filed, ext, fext, pre[:i] + pre[i + 1:], steps)
         if base:
             yield (name, "", temp, clean, filed, ext, fext, pre, steps)
+        if not isinstance(name, str):
+            if _nstr(name) is not None:
+                yield (_nstr(name), base, temp, clean, filed, ext, fext, pre, steps)
+            return
         segs = name.split("/")
         for i in range(len(segs)):
             if len(segs) > 1:
